@@ -8,6 +8,8 @@ Open Scope Z_scope.
 
 Example pin_read_bom_min_len : read_bom_min_len = 3.
 Proof. reflexivity. Qed.
+Example pin_read_bom_accumulates : read_bom_accumulates = true.
+Proof. reflexivity. Qed.
 
 (* ---------- T09a: read side ---------- *)
 
@@ -37,13 +39,13 @@ Proof. exact (read_all_lines_err_from_reader decode_utf8_lossy_spec). Qed.
 Print Assumptions C09_error_only_from_reader.
 
 Theorem C09_read_line_error_only_from_reader : forall fuel d k,
-  read_line fuel d = IoErr k -> In (Fail k) (sched (inner d)).
+  read_line fuel d = IoErr k -> In (Fail k) (sched (second (inner d))).
 Proof. exact (read_line_err_from_reader decode_utf8_lossy_spec). Qed.
 Print Assumptions C09_read_line_error_only_from_reader.
 
 (* a reader that reports no failure: read_line / the whole decode succeed *)
 Theorem C09_faultless_read_line : forall fuel d,
-  faultless (sched (inner d)) -> (msr (inner d) < fuel)%nat ->
+  faultless (sched (second (inner d))) -> (cmsr (inner d) < fuel)%nat ->
   exists o d', read_line fuel d = IoDone (o, d').
 Proof. exact (read_line_faultless_done decode_utf8_lossy_spec). Qed.
 Print Assumptions C09_faultless_read_line.
@@ -58,32 +60,68 @@ Print Assumptions C09_faultless_never_fails.
    returned; Interrupted is retried; end of stream keeps the line as read; a
    byte is taken.  Together with the theorems above (which cover this read
    like every other one): failures there are surfaced, never swallowed. *)
-Theorem C09_extra_byte_failure_returned : forall f rs s buf k,
-  read_extra (S f) (mkReader [] rs (Fail k :: s)) buf = IoErr k.
+Theorem C09_extra_byte_failure_returned : forall f dn rs s buf k,
+  read_extra (S f) (mkChain [] dn (mkReader [] rs (Fail k :: s))) buf = IoErr k.
 Proof. exact read_extra_fail. Qed.
 Print Assumptions C09_extra_byte_failure_returned.
 
-Theorem C09_extra_byte_interrupted_retried : forall f rs s buf,
-  read_extra (S f) (mkReader [] rs (Interrupted :: s)) buf = read_extra f (mkReader [] rs s) buf.
+Theorem C09_extra_byte_interrupted_retried : forall f dn rs s buf,
+  read_extra (S f) (mkChain [] dn (mkReader [] rs (Interrupted :: s))) buf =
+  read_extra f (mkChain [] true (mkReader [] rs s)) buf.
 Proof. exact read_extra_interrupted. Qed.
 Print Assumptions C09_extra_byte_interrupted_retried.
 
-Theorem C09_extra_byte_eof_keeps_line : forall f buf,
-  read_extra (S f) (mkReader [] [] []) buf = IoDone (buf, mkReader [] [] []).
+Theorem C09_extra_byte_eof_keeps_line : forall f dn buf,
+  read_extra (S f) (mkChain [] dn (mkReader [] [] [])) buf = IoDone (buf, mkChain [] true (mkReader [] [] [])).
 Proof. exact read_extra_eof. Qed.
 Print Assumptions C09_extra_byte_eof_keeps_line.
 
-Theorem C09_extra_byte_taken : forall f x bt rs s buf,
-  read_extra (S f) (mkReader (x :: bt) rs s) buf = IoDone (buf ++ [x], mkReader bt rs s).
+Theorem C09_extra_byte_taken : forall f dn x bt rs s buf,
+  read_extra (S f) (mkChain [] dn (mkReader (x :: bt) rs s)) buf =
+  IoDone (buf ++ [x], mkChain [] true (mkReader bt rs s)).
 Proof. exact read_extra_byte. Qed.
 Print Assumptions C09_extra_byte_taken.
 
+(* ... or it is one of the bytes read_bom took from the reader beyond the BOM *)
+Theorem C09_extra_byte_from_head : forall f x t r buf,
+  read_extra (S f) (mkChain (x :: t) false r) buf = IoDone (buf ++ [x], mkChain t false r).
+Proof. exact read_extra_pending_byte. Qed.
+Print Assumptions C09_extra_byte_from_head.
+
 (* Interrupted anywhere in the loop, for any number of them and any reader *)
-Theorem C09_extra_byte_interrupted_transparent : forall f1 f2 r1 r2 buf,
-  sim r1 r2 -> (msr r1 < f1)%nat -> (msr r2 < f2)%nat ->
-  io_rel pair_sim (read_extra f1 r1 buf) (read_extra f2 r2 buf).
+Theorem C09_extra_byte_interrupted_transparent : forall f1 f2 c1 c2 buf,
+  csim c1 c2 -> (cmsr c1 < f1)%nat -> (cmsr c2 < f2)%nat ->
+  io_rel cpair_sim (read_extra f1 c1 buf) (read_extra f2 c2 buf).
 Proof. exact read_extra_sim. Qed.
 Print Assumptions C09_extra_byte_interrupted_transparent.
+
+(* BOM sniffing (read_bom collects up to three bytes over several chunks):
+   while it still lacks bytes a hard failure is returned and Interrupted is
+   retried, one source event at a time; for any number of Interrupted and any
+   reader the outcome is that of the schedule without them.  (The general
+   theorems above cover these reads like every other one.) *)
+Theorem C09_bom_failure_returned : forall f rs s head k, (length head < 3)%nat ->
+  read_bom (S f) (mkReader [] rs (Fail k :: s)) head = IoErr k.
+Proof. exact read_bom_fail. Qed.
+Print Assumptions C09_bom_failure_returned.
+
+Theorem C09_bom_interrupted_retried : forall f rs s head, (length head < 3)%nat ->
+  read_bom (S f) (mkReader [] rs (Interrupted :: s)) head = read_bom f (mkReader [] rs s) head.
+Proof. exact read_bom_interrupted. Qed.
+Print Assumptions C09_bom_interrupted_retried.
+
+Theorem C09_bom_interrupted_transparent : forall f1 f2 r1 r2 head,
+  sim r1 r2 -> (msr r1 < f1)%nat -> (msr r2 < f2)%nat ->
+  io_rel bom_sim (read_bom f1 r1 head) (read_bom f2 r2 head).
+Proof. exact read_bom_sim. Qed.
+Print Assumptions C09_bom_interrupted_transparent.
+
+Theorem C09_bom_failure_reached : forall k fuel r head,
+  will_fail k r -> (msr r < fuel)%nat ->
+  read_bom fuel r head = IoErr k \/
+  exists e h r', read_bom fuel r head = IoDone (e, h, r') /\ will_fail k r'.
+Proof. exact read_bom_will_fail. Qed.
+Print Assumptions C09_bom_failure_reached.
 
 (* neither panics, for every bytes and every schedule *)
 Theorem C09_read_never_panics : forall r, io_ok (read_all_lines r).
@@ -132,10 +170,10 @@ Print Assumptions C09_write_never_panics.
 (* ---------- non-vacuity ---------- *)
 
 Example C09_nonvacuous_read :
-  reaches_fail (length d4_bytes) [Chunk 4; Interrupted; Chunk 7; Fail TimedOut; Chunk 100] = Some TimedOut /\
-  show (read_all_lines (mk_reader d4_bytes [Chunk 4; Interrupted; Chunk 7; Fail TimedOut; Chunk 100])) = [1; 4] /\
+  reaches_fail (length small_file) [Chunk 4; Interrupted; Chunk 7; Fail TimedOut; Chunk 100] = Some TimedOut /\
+  show (read_all_lines (mk_reader small_file [Chunk 4; Interrupted; Chunk 7; Fail TimedOut; Chunk 100])) = [1; 4] /\
   (* a failure scheduled after the source has reported EOF twice is not reached *)
-  show (read_all_lines (mk_reader d4_bytes [Chunk 100; Chunk 1; Chunk 1; Fail Other]))
+  show (read_all_lines (mk_reader small_file [Chunk 100; Chunk 1; Chunk 1; Fail Other]))
   = show (IoDone [lit "[Metadata]"; lit "Title:abc"]).
 Proof. vm_compute. repeat split. Qed.
 
@@ -149,6 +187,14 @@ Example C09_extra_byte_read_events :
   show (read_all_lines (mk_reader [255; 254; 97; 0; 10] [Chunk 5; Interrupted; Fail Other])) = [1; 1] /\
   show (read_all_lines (mk_reader [255; 254; 97; 0; 10] [Chunk 5])) = show (IoDone [lit "a"]).
 Proof. exact extra_byte_read_events. Qed.
+
+(* the source fails / is interrupted while read_bom has one or two bytes *)
+Example C09_bom_sniffing_events :
+  show (read_all_lines (mk_reader small_file [Chunk 1; Fail TimedOut; Chunk 100])) = [1; 4] /\
+  show (read_all_lines (mk_reader small_file [Chunk 2; Interrupted; Fail Other])) = [1; 1] /\
+  show (read_all_lines (mk_reader small_file [Interrupted; Chunk 1; Interrupted; Chunk 1; Interrupted; Chunk 100])) = show small_lines /\
+  show (read_all_lines (mk_reader (lit "ab") [Chunk 2; Fail WouldBlock])) = [1; 5].
+Proof. exact bom_sniffing_events. Qed.
 
 Example C09_nonvacuous_write :
   (* 5 bytes in two chunks; the writer takes 2, is interrupted, takes 1, then fails *)
